@@ -108,9 +108,9 @@ func (c *vcr) writeCredential(subject vc.VerifiableCredential) error {
 
 	_, err := c.writeCredentialToWallet(subject)
 	if err != nil {
-		return fmt.Errorf("unable to write credential to wallet (id=%s): %w", subject.ID, err)
+		return fmt.Errorf("unable to write credential to wallet (id=%s): %w", subject.ID, types.StorageError(err))
 	}
 
 	doc, _ := json.Marshal(subject)
-	return c.credentialCollection().Add([]leia.Document{doc})
+	return types.StorageError(c.credentialCollection().Add([]leia.Document{doc}))
 }
